@@ -93,13 +93,13 @@ CONSTANTS Ops, Limbs, Bases, Bits, Copies, PowerBits, Coeffs, SubBits, Degrees
 
 OpsAll == 1..20
 LimbsAll == 1..63
-BasesAll == 2..4
+BasesAll == (2..4) \cup {10, 16, 64}      \* multi-digit values: every numeric parameter must be captured completely
 BitsAll == 1..5
-CopiesAll == 1..4
+CopiesAll == (1..4) \cup {13}
 PowerBitsAll == 1..67
 CoeffsAll == 1..43
 SubBitsAll == 2..4
-DegreesAll == 2..6
+DegreesAll == (2..6) \cup {10}
 
 W4 == "17293822565076172801, 18374686475376656385, 18446744069413535745, 281474976645120"
 G(id, gate, ok, d) == [id |-> id, gate |-> gate, supported |-> ok, d |-> d]
@@ -107,7 +107,7 @@ Supported ==
      {G(IdArithmetic(n), "ArithmeticGate", TRUE, 2) : n \in Ops} \cup {G(IdArithmeticExt(n), "ArithmeticExtensionGate", TRUE, 2) : n \in Ops}
   \cup {G(IdMulExt(n), "MulExtensionGate", TRUE, 2) : n \in Ops}
   \cup {G(IdBaseSum(l, b), "BaseSumGate", TRUE, 2) : l \in Limbs, b \in Bases}
-  \cup {G(IdConstant(n), "ConstantGate", TRUE, 2) : n \in 1..4}
+  \cup {G(IdConstant(n), "ConstantGate", TRUE, 2) : n \in (1..4) \cup {10, 12, 100}}
   \cup {G(IdCoset(sb, d, W4, 2), "CosetInterpolationGate", TRUE, 2) : sb \in SubBits, d \in Degrees}
   \cup {G(IdExp(n, 2), "ExponentiationGate", TRUE, 2) : n \in PowerBits}
   \cup {G(IdNoop, "NoopGate", TRUE, 2), G(IdPoseidon, "PoseidonGate", TRUE, 2), G(IdPoseidonMds, "PoseidonMdsGate", TRUE, 2), G(IdPublicInput, "PublicInputGate", TRUE, 2)}
